@@ -1,5 +1,6 @@
 import Driver.Util
 import Heph.Model.Diag
+import Heph.Spec.Diag
 open Lean Heph.Diag
 namespace Driver.Diag
 
@@ -26,8 +27,44 @@ def getText (j : Json) (k : String) : Except String (List Char) :=
 def failedJson (f : Failed) : Json :=
   Json.arr (f.toArray.map fun p => Json.arr #[str p.1, Json.arr (p.2.toArray.map str)])
 
+def getChars (j : Json) (k : String) : Except String (List Char) := do
+  match j.getObjVal? k with
+  | .ok v => do
+    let s ← v.getStr?
+    pure s.toList
+  | .error _ => pure []
+
+def parseItem (j : Json) : Except String Item := do
+  let kind ← getStr j "k"
+  let det : Except String (List (List Char)) := match j.getObjVal? "detail" with
+    | .ok a => do
+      let arr ← a.getArr?
+      arr.toList.mapM fun x => do
+        let s ← x.getStr?
+        pure s.toList
+    | .error _ => pure []
+  let pad := match getNat j "pad" with
+    | .ok n => n
+    | .error _ => 0
+  match kind with
+  | "error" => pure (.error (← getChars j "file") (← getChars j "line") (← getChars j "col")
+      (← getChars j "msg") pad (← det))
+  | "warning" => pure (.warning (← getChars j "file") (← getChars j "line") (← getChars j "col")
+      (← getChars j "msg") pad (← det))
+  | "note" => pure (.note (← getChars j "text"))
+  | "summary" => pure (.summary (← getChars j "count"))
+  | s => throw s!"unknown item kind {s}"
+
 def handle : Handler := fun op j =>
   match op with
+  | "diag.render" => some do
+      let c ← parseCompiler (← getStr j "compiler")
+      let arr ← getArr j "items"
+      let items ← arr.toList.mapM parseItem
+      pure (res (Json.mkObj [
+        ("text", str (render c items)),
+        ("wf", Json.bool (items.all (wfItem c))),
+        ("expected", failedJson (groupByFile (expected c items)))]))
   | "diag.analyze" => some do
       let c ← parseCompiler (← getStr j "compiler")
       let out ← getText j "output"
